@@ -23,7 +23,7 @@ TRACE_CFG = "CONSTANT PAGE = 65536\nINIT Init\nNEXT Next\n"
 ALL = dict(PAGE=4, DROP_FIRST_AFTER_GAP=False, SKIP_RETAINS_DATA=False, MaxF=3, MaxRuns=3, MaxPage=2, S_MaxSec=1,
            S_Types=[52, 53, 57, 61, 64, 72, 112, 131, 132, 80], S_Sels=["none", "single", "multi", "bgm"],
            S_Vers=["none", "star", "v"], S_Sifs=["none", "star", "ok", "bad"],
-           S_Shapes=["one", "two", "gap", "gapmid", "nz", "pagegap", "nonbase"], S_Crcs=["none", "pre", "post"],
+           S_Shapes=["one", "two", "straddle", "gap", "gapmid", "nz", "pagegap", "nonbase"], S_Crcs=["none", "pre", "post"],
            S_Reboots=[False, True], S_Upds=[True, False], S_Fws=["none", "rel", "dbg"], S_Creators=[False, True],
            S_Enfs=[True, False])
 P_INV = ["RawInOrder", "BlobIsImage", "MemImage", "RunsAreLines"]
@@ -149,7 +149,35 @@ def fixed_imports():
         if base:
             L = B.Lines()
             out.append(([B.cmt("Bf3Update", "1"), B.item("grp", runs=B.to_runs(L, [(base[0], 0, 3), (ty, 0, 4)]))], L, True))
-    out += fixed_flag_matrix() + fixed_names()
+    out += fixed_flag_matrix() + fixed_names() + fixed_straddle()
+    return out
+
+
+# (first tag type, line size, image size): constant line sizes that do not divide 65536, one and several page boundaries
+STRADDLE = [(0x35, 250, 0x10000 + 500), (0x35, 249, 0x10000 + 1), (0x39, 200, 0x10000 + 37), (0x3D, 250, 0x20000), (0x40, 3, 0x10000 + 10),
+            (0x40, 7, 0x20000 + 20), (0x40, 250, 0x40000 + 123), (0x35, 249, 0x30000 + 7), (0x70, 250, 0x10000 + 500), (0x84, 200, 0x50000 + 5),
+            (0x40, 251, 0x10000 - 250 + 251)]
+
+
+def fixed_straddle():
+    """data lines that start in one 64 KiB page and end in the next (flat address = page * 65536 + offset): blob sections
+    (contiguous -> the image; with a gap at / next to the straddling line -> rejected), BF2-compatible sections"""
+    out = []
+    for bt, ln, size in STRADDLE:
+        lines = B.const_image(bt, size, ln)
+        st = [k for k, l in enumerate(lines) if l[1] + l[2] > 0x10000]
+        if not st:
+            raise MachineryError("driver: layout without a straddling line")
+        for variant in ("whole", "one-group", "without-line-behind", "without-straddler"):
+            if variant in ("without-line-behind", "without-straddler") and (ln < 100 or st[0] + 1 >= len(lines)):
+                continue
+            ls = lines if variant in ("whole", "one-group") else \
+                lines[:st[0] + 1] + lines[st[0] + 2:] if variant == "without-line-behind" else lines[:st[0]] + lines[st[0] + 1:]
+            L = B.Lines()
+            runs = B.to_runs(L, ls)
+            its = [B.cmt("Bf3Update", "1"), B.ins("CHECK_FWVER", "*")] + ([B.ins("SELECT_IF", "BRP")] if bt == 0x70 else [])
+            its += [B.item("grp", runs=g) for g in B.split_groups(None, runs, "one" if variant == "one-group" else "page")]
+            out.append((its + [B.ins("REBOOT")], L, True))
     return out
 
 
@@ -245,6 +273,19 @@ def fixed_directs():
                   [(0xFFFE, 2), (0x10000, 3), (0x10004, 3)]):
         L = B.Lines()
         out.append((L, B.to_runs(L, [(0x84 + (a >> 16), a & 0xFFFF, n) for a, n in spans])))
+    # lines that straddle a page end (appended: the positions of the layouts above are used by the canaries)
+    for spans in ([(0xFFFE, 4), (0x10002, 3)], [(0xFFFF, 2), (0x10001, 250), (0x100FB, 1)], [(0xFF06, 250), (0x10000, 6)],
+                  [(0xFF06, 251), (0x10001, 6)], [(0xFFFF, 3), (0x1FFFD, 7), (0x20004, 3)]):
+        L = B.Lines()
+        out.append((L, B.to_runs(L, [(0x84 + (a >> 16), a & 0xFFFF, n) for a, n in spans])))
+    for bt, ln, size in STRADDLE:
+        lines = B.const_image(bt, size, ln)
+        k = [j for j, l in enumerate(lines) if l[1] + l[2] > 0x10000][0]
+        for ls in (lines, lines[:k] + lines[k + 1:], lines[:k + 1] + lines[k + 2:], lines[k:] + lines[:k]):
+            if ln < 100 and ls is not lines:
+                continue
+            L = B.Lines()
+            out.append((L, B.to_runs(L, ls)))
     return out
 
 
@@ -388,7 +429,7 @@ def run(tier):
         "base-type group without instructions in between, end of file); every section carries data; every group has start and end marker",
         "ignored prepare/activate sections carry no CRC/REBOOT of their own; instructions in front of them stay pending for the next section",
         "the checksum is written `##CRC: 0x<1..8 hex digits>` (the only form the importer executes; `#>CRC ...` is rejected as malformed)",
-        "data lines of a section do not overlap and lie at or above the page of its first line; no line crosses a 64 KiB page",
+        "data lines of a section do not overlap and lie at or above the page of its first line; a line starts inside its page (16-bit offset) but may end in the next one (flat addressing)",
         "hardware-id names: the spec renders with the pinned list spec/HwcidNames.tla (transcribed from bec2format/hwcids.py of the pinned "
         "commit); the library's HWCID_MAP / REV_HWCID_MAP must be injective and equal to it (event 'names')",
         "attribution: payload(line id, offset) starts with a prefix-free code of the id (at most 128 one-byte lines per file)",
